@@ -23,16 +23,16 @@ func minimise(c Case, sig string, extra customfuncs.CustomFuncs, deadline time.D
 		return Exec(x, extra, deadline).Signature() == sig
 	}
 	// 1. input bytes
-	in := ddmin(c.input(), func(b []byte) bool { return test(mkCase([]byte(c.Schema), b)) })
-	c = mkCase([]byte(c.Schema), in)
+	in := ddmin(c.input(), func(b []byte) bool { return test(withFault(mkCase([]byte(c.Schema), b), c.FaultAfter)) })
+	c = withFault(mkCase([]byte(c.Schema), in), c.FaultAfter)
 	// 2. schema
 	tree, ok := parseJSON([]byte(c.Schema))
 	if !ok {
-		sb := ddmin([]byte(c.Schema), func(b []byte) bool { return test(mkCase(b, in)) })
-		return mkCase(sb, in), probes
+		sb := ddmin([]byte(c.Schema), func(b []byte) bool { return test(withFault(mkCase(b, in), c.FaultAfter)) })
+		return withFault(mkCase(sb, in), c.FaultAfter), probes
 	}
-	if test(mkCase(render(tree), in)) { // canonical rendering keeps the failure
-		c = mkCase(render(tree), in)
+	if test(withFault(mkCase(render(tree), in), c.FaultAfter)) { // canonical rendering keeps the failure
+		c = withFault(mkCase(render(tree), in), c.FaultAfter)
 	} else {
 		return c, probes
 	}
@@ -46,7 +46,7 @@ func minimise(c Case, sig string, extra customfuncs.CustomFuncs, deadline time.D
 				break
 			}
 			ss[i].del()
-			if test(mkCase(render(cand), in)) {
+			if test(withFault(mkCase(render(cand), in), c.FaultAfter)) {
 				tree = cand
 				changed = true
 			} else {
@@ -64,17 +64,17 @@ func minimise(c Case, sig string, extra customfuncs.CustomFuncs, deadline time.D
 			for _, repl := range []string{"x", s[:len(s)/2], s[:8]} {
 				cand := clone(tree)
 				allSlots(&cand)[i].set(repl)
-				if test(mkCase(render(cand), in)) {
+				if test(withFault(mkCase(render(cand), in), c.FaultAfter)) {
 					tree = cand
 					break
 				}
 			}
 		}
 	}
-	c = mkCase(render(tree), in)
+	c = withFault(mkCase(render(tree), in), c.FaultAfter)
 	// the input once more: a smaller schema may need less input
-	in = ddmin(in, func(b []byte) bool { return test(mkCase([]byte(c.Schema), b)) })
-	return mkCase([]byte(c.Schema), in), probes
+	in = ddmin(in, func(b []byte) bool { return test(withFault(mkCase([]byte(c.Schema), b), c.FaultAfter)) })
+	return withFault(mkCase([]byte(c.Schema), in), c.FaultAfter), probes
 }
 
 // ddmin is Zeller's delta debugging restricted to removing chunks.
@@ -116,3 +116,5 @@ func ddmin(b []byte, fails func([]byte) bool) []byte {
 	}
 	return b
 }
+
+func withFault(c Case, fault bool) Case { c.FaultAfter = fault; return c }
